@@ -111,12 +111,14 @@ func (d *Dump) text(withDL bool) string {
 
 // compareDump checks the visible dataset against the model.
 func compareDump(m *Model, d *Dump, checkHooks bool) error {
-	for k, col := range m.cols {
+	for _, k := range m.sortedKeys() {
+		col := m.cols[k]
 		dc := d.cols[k]
 		if dc == nil {
 			return fmt.Errorf("collection %q missing (model has %d objects)", k, len(col))
 		}
-		for id, o := range col {
+		for _, id := range sortedIDs(col) {
+			o := col[id]
 			do := dc[id]
 			if do == nil {
 				return fmt.Errorf("object %q/%q missing", k, id)
@@ -135,19 +137,36 @@ func compareDump(m *Model, d *Dump, checkHooks bool) error {
 			}
 		}
 	}
-	for k, dc := range d.cols {
+	dkeys := make([]string, 0, len(d.cols))
+	for k := range d.cols {
+		dkeys = append(dkeys, k)
+	}
+	sort.Strings(dkeys)
+	for _, k := range dkeys {
+		dc := d.cols[k]
 		if len(dc) == 0 {
 			return fmt.Errorf("empty collection %q exists", k)
 		}
 		mc := m.cols[k]
+		dids := make([]string, 0, len(dc))
 		for id := range dc {
+			dids = append(dids, id)
+		}
+		sort.Strings(dids)
+		for _, id := range dids {
 			if mc == nil || mc[id] == nil {
 				return fmt.Errorf("unexpected object %q/%q (%s)", k, id, clipStr(dc[id].obj, 120))
 			}
 		}
 	}
 	if checkHooks {
-		for n, h := range m.hooks {
+		hnames := make([]string, 0, len(m.hooks))
+		for n := range m.hooks {
+			hnames = append(hnames, n)
+		}
+		sort.Strings(hnames)
+		for _, n := range hnames {
+			h := m.hooks[n]
 			dh := d.hooks[n]
 			if dh == nil {
 				return fmt.Errorf("hook %q missing", n)
@@ -162,7 +181,12 @@ func compareDump(m *Model, d *Dump, checkHooks bool) error {
 				return fmt.Errorf("hook %q has-deadline=%v want %v", n, dh.hasDL, h.hasDL)
 			}
 		}
+		dn := make([]string, 0, len(d.hooks))
 		for n := range d.hooks {
+			dn = append(dn, n)
+		}
+		sort.Strings(dn)
+		for _, n := range dn {
 			if m.hooks[n] == nil {
 				return fmt.Errorf("unexpected hook %q", n)
 			}
